@@ -64,7 +64,25 @@ func (c *Ctx) methodBody(named *types.Named, name string) *ssa.Function {
 // validateCompatibilityIn, which carries the set of object pairs under comparison) - stands for that method: the rules
 // anchor on the body, whatever it is called.
 func (c *Ctx) trampolineTarget(fn *ssa.Function) *ssa.Function {
-	if fn == nil || len(fn.Blocks) != 1 || fn.Signature.Recv() == nil || len(fn.Params) == 0 {
+	return trampolineOf(c.M, fn)
+}
+
+// trampolineOf: fn, or the function its whole body hands over to - a single static call of a function of the module
+// that receives every parameter of fn (plus, possibly, fresh values, globals or fields: `return worker(p, os.Args)`)
+// and whose results are returned as they are.
+func trampolineOf(m *core.Module, fn *ssa.Function) *ssa.Function {
+	for hop := 0; hop < 3; hop++ {
+		next := trampolineStep(m, fn)
+		if next == fn {
+			return fn
+		}
+		fn = next
+	}
+	return fn
+}
+
+func trampolineStep(m *core.Module, fn *ssa.Function) *ssa.Function {
+	if fn == nil || len(fn.Blocks) != 1 {
 		return fn
 	}
 	var call *ssa.Call
@@ -76,11 +94,23 @@ func (c *Ctx) trampolineTarget(fn *ssa.Function) *ssa.Function {
 			}
 			call = x
 		case *ssa.Return:
-			if call == nil || len(x.Results) != 1 || x.Results[0] != ssa.Value(call) {
+			if call == nil {
 				return fn
 			}
-		case *ssa.MakeMap, *ssa.MakeInterface, *ssa.Alloc, *ssa.Store, *ssa.UnOp, *ssa.ChangeType:
-			// building the fresh context argument, or copying a value receiver
+			switch {
+			case len(x.Results) == 0 && call.Call.Signature().Results().Len() == 0:
+			case len(x.Results) == 1 && x.Results[0] == ssa.Value(call):
+			default:
+				// `return worker(...)` with several results: each is the extract of the same index
+				for i, r := range x.Results {
+					ex, ok := r.(*ssa.Extract)
+					if !ok || ex.Tuple != ssa.Value(call) || ex.Index != i {
+						return fn
+					}
+				}
+			}
+		case *ssa.MakeMap, *ssa.MakeInterface, *ssa.Alloc, *ssa.Store, *ssa.UnOp, *ssa.ChangeType, *ssa.Extract, *ssa.FieldAddr, *ssa.Field:
+			// building the fresh context argument, copying a value receiver, loading a global or a field to hand over
 		case *ssa.DebugRef:
 		default:
 			return fn
@@ -89,28 +119,45 @@ func (c *Ctx) trampolineTarget(fn *ssa.Function) *ssa.Function {
 	if call == nil {
 		return fn
 	}
-	callee := call.Call.StaticCallee()
-	if callee == nil || callee.Signature.Recv() == nil || len(call.Call.Args) < len(fn.Params) || callee.Blocks == nil {
+	callee := core.StaticBody(&call.Call)
+	if callee == nil || callee == fn || len(call.Call.Args) < len(fn.Params) {
 		return fn
 	}
-	// same receiver, parameters handed on in order
-	if !types.Identical(callee.Signature.Recv().Type(), fn.Signature.Recv().Type()) {
+	if (callee.Signature.Recv() == nil) != (fn.Signature.Recv() == nil) {
 		return fn
 	}
+	// (compared on the function as it is called: for a method of a generic type that is the instance whose receiver is
+	// spelled with the caller's own type parameters)
+	if inst := call.Call.StaticCallee(); fn.Signature.Recv() != nil && (inst == nil || inst.Signature.Recv() == nil ||
+		!types.Identical(inst.Signature.Recv().Type(), fn.Signature.Recv().Type())) {
+		return fn
+	}
+	// every parameter is handed on (a method hands on its receiver first)
 	for i, p := range fn.Params {
-		a := call.Call.Args[i]
-		if a == ssa.Value(p) {
-			continue
-		}
-		// a value receiver is passed on as a copy loaded from a local
-		if ld, ok := a.(*ssa.UnOp); ok && i == 0 {
-			if _, isAlloc := ld.X.(*ssa.Alloc); isAlloc {
-				continue
+		handed := false
+		for j, a := range call.Call.Args {
+			if a == ssa.Value(p) {
+				handed = true
+			}
+			// a value receiver is passed on as a copy loaded from a local
+			if ld, ok := a.(*ssa.UnOp); ok && i == 0 && j == 0 && fn.Signature.Recv() != nil {
+				if _, isAlloc := ld.X.(*ssa.Alloc); isAlloc {
+					handed = true
+				}
 			}
 		}
-		return fn
+		if !handed {
+			return fn
+		}
 	}
-	return c.M.Source(callee)
+	if fn.Signature.Recv() != nil && call.Call.Args[0] != ssa.Value(fn.Params[0]) {
+		if ld, ok := call.Call.Args[0].(*ssa.UnOp); !ok {
+			return fn
+		} else if _, isAlloc := ld.X.(*ssa.Alloc); !isAlloc {
+			return fn
+		}
+	}
+	return callee
 }
 
 // compatName normalises the names under which the compatibility operation appears in calls.
